@@ -65,7 +65,8 @@ fn check_reply(
                 }
             }
             for r in &exact {
-                if !p.answers.iter().any(|a| same(a, r)) {
+                // included as the record the store identifies it by (owner, class, RDATA)
+                if !p.answers.iter().any(|a| a.name == r.name && a.class == r.class && a.rdata == r.rdata) {
                     fails.push("answer-missing");
                 }
             }
